@@ -249,6 +249,47 @@ func runC05(c *Ctx) {
 			c05Record(c, "from-wire", g)
 		}
 	}
+	// RFC 3597 generic form with large RDATA (the 16-bit length is where arithmetic goes wrong)
+	for _, n := range []int{255, 256, 32767, 32768, 32769, 40000, 65534, 65535} {
+		for _, typ := range []uint16{dns.TypeOPENPGPKEY, dns.TypeDNSKEY, dns.TypeTXT, dns.TypeDHCID, 65280} {
+			var rd []byte
+			switch typ {
+			case dns.TypeTXT:
+				for len(rd) < n {
+					k := n - len(rd) - 1
+					if k > 255 {
+						k = 255
+					}
+					rd = append(rd, byte(k))
+					for j := 0; j < k; j++ {
+						rd = append(rd, byte('a'+r.Intn(26)))
+					}
+				}
+			default:
+				rd = r.Bytes(n)
+			}
+			if len(rd) != n {
+				continue
+			}
+			wire := assembleRR([][]byte{[]byte("big")}, typ, 1, 300, rd)
+			gen := fmt.Sprintf("big.\t300\tCLASS1\tTYPE%d\t\\# %d %s", typ, n, hx(rd))
+			out := guard(func() string {
+				rr, err := dns.NewRR(gen)
+				if err != nil || rr == nil {
+					return fmt.Sprint("parse-error: ", err)
+				}
+				w, err := packRRBytes(rr)
+				if err != nil {
+					return "repack-error: " + err.Error()
+				}
+				if !bytes.Equal(w, wire) {
+					return fmt.Sprintf("differs: %d octets, rdlength %d", len(w), rr.Header().Rdlength)
+				}
+				return "ok"
+			})
+			c.Pred("generic-large", "generic-form:"+dns.Type(typ).String(), fmt.Sprintf("type=%d rdlen=%d", typ, n), out == "ok", out, "ok", true)
+		}
+	}
 	// character-strings: in-memory form after unpacking and octets after packing, against the Lean text model
 	for i := 0; i < c.Scale(3000, 80000); i++ {
 		raw := genCharString(r, false)
